@@ -242,7 +242,7 @@ func srcStructField(f srcField) reflect.StructField {
 		tags = append(tags, fmt.Sprintf(`dials:"%s"`, renderTag(f.Tag)))
 	}
 	if f.SrcTag {
-		tags = append(tags, fmt.Sprintf(`dialsenv:"ENVX_%d" dialsflag:"flagx-%d" dialspflag:"pflagx-%d"`, f.ID, f.ID, f.ID))
+		tags = append(tags, fmt.Sprintf(`dialsenv:"ENVX_%d" dialsflag:"flagx-%d" dialspflag:"pflagx-%d" json:"J%d" yaml:"Y%d" toml:"T%d"`, f.ID, f.ID, f.ID, f.ID, f.ID, f.ID))
 	}
 	if len(f.Alias) > 0 {
 		tags = append(tags, fmt.Sprintf(`dialsalias:"%s"`, strings.Join(f.Alias, "_")))
@@ -825,7 +825,9 @@ func (r *srcRun) fillDefaults(fs []srcField, v reflect.Value) {
 }
 
 // documents
-func (r *srcRun) docTree() (map[string]interface{}, bool) {
+// docTree renders the supplied leaves as a document tree for one format (a format-specific tag takes precedence over the
+// dials tag; Cue reads json tags; durations may be integer nanoseconds in JSON and Cue)
+func (r *srcRun) docTree(format string) (map[string]interface{}, bool) {
 	ok := true
 	var build func(fs []srcField) map[string]interface{}
 	build = func(fs []srcField) map[string]interface{} {
@@ -836,6 +838,9 @@ func (r *srcRun) docTree() (map[string]interface{}, bool) {
 				continue
 			}
 			key := renderTag(f.Tag)
+			if f.SrcTag && f.Nest == "" {
+				key = fmt.Sprintf("%s%d", map[string]string{"json": "J", "cue": "J", "yaml": "Y", "toml": "T"}[format], f.ID)
+			}
 			if f.Nest != "" {
 				if f.PAlias {
 					key = strings.Join(f.Alias, "_")
@@ -846,6 +851,9 @@ func (r *srcRun) docTree() (map[string]interface{}, bool) {
 				continue
 			}
 			_, _, doc := leafValue(f.Kind, f.ID)
+			if f.Kind == "dur" && (format == "json" || format == "cue") && (r.c.Seed+f.ID)%2 == 1 {
+				doc = int64(time.Duration(f.ID) * time.Second) // integer nanoseconds
+			}
 			var empty interface{} = []interface{}{}
 			if f.Kind == "smap" || f.Kind == "nmap" || f.Kind == "mnamed" || f.Kind == "knamed" {
 				empty = map[string]interface{}{}
@@ -954,15 +962,17 @@ func yamlText(v interface{}, indent string, b *strings.Builder) {
 }
 
 func (r *srcRun) runDecoders() {
-	tree, ok := r.docTree()
+	tree, ok := r.docTree("json")
 	// outside the property's scope (untagged fields, kinds without a common spelling) the decoders are still run on what
 	// can be written down: they must not panic
 	judged := ok
 	jb, _ := json.Marshal(tree)
 	docs := map[string]string{"json": string(jb), "cue": string(jb)}
 	var tb, yb strings.Builder
-	tomlText(tree, "", &tb)
-	yamlText(tree, "", &yb)
+	ttree, _ := r.docTree("toml")
+	ytree, _ := r.docTree("yaml")
+	tomlText(ttree, "", &tb)
+	yamlText(ytree, "", &yb)
 	docs["toml"] = tb.String()
 	docs["yaml"] = yb.String()
 	if len(tree) == 0 {
